@@ -197,6 +197,8 @@ fn timed_append_ser(q: &Q, p: i64, e: u64, serialize: bool) {
 }
 
 static COUNT_ONLY: AtomicBool = AtomicBool::new(false);
+/// a (silent) global tracing subscriber is installed in this process (`bq run --subscriber 1`)
+static SUBSCRIBER: AtomicBool = AtomicBool::new(false);
 
 fn timed_append(q: &Q, p: i64, e: u64) {
     if !COUNT_ONLY.load(Ordering::Relaxed) {
@@ -321,7 +323,8 @@ fn run_scenario(sc: &Scenario) {
     let ctrl = sched::controller();
     let nprod = sc.producers.len();
     trace::set_epoch(sc.id);
-    trace::ev(json!({"ev":"Reset","cap":sc.cap as i64,"sinks":(nprod+1) as i64,"scenario":sc.id as i64}));
+    trace::ev(json!({"ev":"Reset","cap":sc.cap as i64,"sinks":(nprod+1) as i64,"scenario":sc.id as i64,
+                     "sub": if SUBSCRIBER.load(Ordering::Relaxed) {1} else {0}}));
     let ctl = StreamCtl::new();
     for (k, v) in &sc.results {
         ctl.script(k.parse().unwrap(), Res::parse(v));
@@ -544,6 +547,14 @@ fn annotate_ranks(evs: &mut [Value]) {
 }
 
 fn cmd_run(a: &HashMap<String, String>) {
+    if util::arg_u64(a, "subscriber", 0) == 1 {
+        // any subscriber other than NoSubscriber; its output goes nowhere
+        tracing_subscriber::fmt()
+            .with_writer(std::io::sink)
+            .with_max_level(tracing::Level::ERROR)
+            .init();
+        SUBSCRIBER.store(true, Ordering::Relaxed);
+    }
     let scen = util::read_ndjson(util::arg_str(a, "scenarios", ""));
     let mut out = std::io::BufWriter::new(std::fs::File::create(util::arg_str(a, "out", "")).unwrap());
     let mut meta = std::io::BufWriter::new(std::fs::File::create(util::arg_str(a, "meta", "")).unwrap());
@@ -629,7 +640,7 @@ fn run_sched(sc: &Sched) -> Value {
     ];
     ctrl.begin_gate(&actors, &[(tname.clone(), 0)], GATING, true);
     trace::set_epoch(1_000_000 + sc.id);
-    trace::ev(json!({"ev":"Reset","cap":sc.cap as i64,"sinks":(sc.producers+1) as i64,"scenario":sc.id as i64}));
+    trace::ev(json!({"ev":"Reset","cap":sc.cap as i64,"sinks":(sc.producers+1) as i64,"scenario":sc.id as i64,"sub":0}));
     let ctl = StreamCtl::new();
     for (k, v) in &sc.results {
         ctl.script(k.parse().unwrap(), Res::parse(v));
